@@ -294,18 +294,23 @@ func HexS(b []byte) string {
 }
 
 func loadFindings(root string) ([]Finding, error) {
-	b, err := os.ReadFile(filepath.Join(root, "known_findings.json"))
-	if err != nil {
-		if os.IsNotExist(err) {
-			return nil, nil
+	// known findings live in /verif/findings/<ID>.json (one committed file per property,
+	// never written at run time)
+	files, _ := filepath.Glob(filepath.Join(root, "findings", "*.json"))
+	sort.Strings(files)
+	var all []Finding
+	for _, fn := range files {
+		b, err := os.ReadFile(fn)
+		if err != nil {
+			return nil, err
 		}
-		return nil, err
+		var f []Finding
+		if err := json.Unmarshal(b, &f); err != nil {
+			return nil, fmt.Errorf("%s: %v", fn, err)
+		}
+		all = append(all, f...)
 	}
-	var f []Finding
-	if err := json.Unmarshal(b, &f); err != nil {
-		return nil, err
-	}
-	return f, nil
+	return all, nil
 }
 
 // Main runs a check body and implements the command-line and output protocol.
@@ -352,7 +357,7 @@ func Main(id, level string, body func(c *Ctx)) {
 	}
 	findings, err := loadFindings(root)
 	if err != nil {
-		c.Fatalf("known_findings.json: %v", err)
+		c.Fatalf("findings: %v", err)
 	}
 	known := map[string]Finding{}
 	for _, f := range findings {
